@@ -457,6 +457,24 @@ Section Proofs.
     split; [exact A|]. split; [exact B1|]. split; [exact Hi|]. split; [exact B2|reflexivity].
   Qed.
 
+  (* MeasureClockOffsetSCION reports an offset only if its client did *)
+  Lemma scion_return_offset : forall cr off ts, scion_return cr = COffset off ts -> cr = COffset off ts.
+  Proof. intros cr off ts H. destruct cr; simpl in H; try discriminate; exact H. Qed.
+
+  Theorem scion_call_offset_genuine : forall c st envs st' cr lrs off ts,
+    envs <> [] ->
+    call open c st envs = (st', cr, lrs) -> scion_return cr = COffset off ts ->
+    exists stk e g h i, In e envs /\ nth_error (e_evs e) i = Some (EvDgram g) /\ (i <= 1)%nat /\
+      genuine (make_request c stk e) g h /\ off = r_off (result_of (make_request c stk e) g h).
+  Proof.
+    intros c st envs st' cr lrs off ts HE HC HR. apply scion_return_offset in HR. subst cr.
+    eapply call_offset_genuine; eauto.
+  Qed.
+
+  (* a call without any accepted exchange ends with an error, also through MeasureClockOffsetSCION *)
+  Theorem scion_return_error : forall e, exists e', scion_return (CError e) = CError e'.
+  Proof. intro e. exists ENoMeasurement. reflexivity. Qed.
+
   (* ---- histories of one client ---- *)
   Definition calls_nonempty (ops : list hop) : Prop :=
     forall envs, In (HCall envs) ops -> envs <> [].
